@@ -160,6 +160,7 @@ func runC04(p *an.Prog, r *an.Run, tier string) {
 	checkHashCovers(p, r)
 	checkDispatchAgree(p, r, a)
 	checkParamCodecs(p, r, a)
+	checkSameIdentity(p, r)
 }
 
 // checkParamCodecs: the client signs the parameters it marshals, the pool verifies the parameters it decoded and
@@ -1288,6 +1289,7 @@ func runC06(p *an.Prog, r *an.Run, tier string) {
 	// consumes the owner's nonce and leaves every trace a valid request leaves.
 	checkHashCovers(p, r)
 	checkNonceKeptOnRefusal(p, r)
+	checkNonceStores(p, r)
 	for _, w := range a.wrappers {
 		name := an.FuncName(w)
 		r.Analysed(name)
